@@ -1,6 +1,11 @@
 HOOK_COMMITS = []
 NOT_APPLICABLE = {}
 TEXTS = {
+ "C11": {
+  "technique": "property-based testing (rapid): differential against an independent reference for single operators, driver-level idempotence / modified-count / rejection-as-a-whole, operator-independence and positional-operator metamorphic relations",
+  "level_text": "Generated search with four oracles: differential agreement of mongokit.Apply with an independently written reference of MongoDB's update semantics for every operator (type promotion, path creation, $push modifiers, $pull conditions), driver-level invariants (rejected update leaves bytes unchanged, ModifiedCount iff bytes changed, idempotence of the seven idempotent operators), equality of a combined update with its operators applied one at a time, and equality of $[] / $[id] with explicit element paths chosen by the reference matcher. Sampling, not proof.",
+  "level_note": "Trusts the reference apply/match in harness/ref inside the declared domain; decimal arithmetic, $currentDate values and field order of newly created siblings are not compared (DESIGN.md 8.2).",
+ },
  "C10": {
   "technique": "property-based testing (rapid): differential against an independent reference matcher on the core domain, logical laws and metamorphic relations on the wide domain",
   "level_text": "Generated search with three oracles: (1) differential agreement of mongokit.Match with an independently written reference matcher (MongoDB path semantics, type bracketing, NaN unordered, element-or-whole array semantics) inside the declared core domain; (2) the logical laws the property lists, checked reference-free on every generated input incl. nested arrays; (3) metamorphic invariance (unrelated field, wrapping, renaming). Hundreds of thousands (quick) to tens of millions (thorough) of cases; sampling, not proof.",
